@@ -175,6 +175,44 @@ pub fn run_c07(cfg: &Cfg, rep: &mut Report) {
         }
         rep.distinct_nontrivial += nontrivial;
     });
+    // very long prior histories (the statement says "whatever it has been fed before"): the same
+    // message again after 66 000 further messages of one kind on its channel
+    if !cfg.as_c18 {
+        let mut cases = 0u64;
+        for (c, n, v) in [(9u8, 7u8, 0x2a55u16), (0, 0, 127), (15, 31, 16383)] {
+            let fillers: [Ev; 5] = [
+                Ev::Msg(0x90 | c, 60, 1),
+                Ev::cc(c, n + 32, (v & 127) as u8),
+                Ev::cc(c, n, (v >> 7) as u8),
+                Ev::cc(c, 64 + n, 3),
+                Ev::cc((c + 1) % 16, n, 1),
+            ];
+            for filler in fillers {
+                let mut mon = Cc14Mon::new();
+                let e1 = Ev::cc(c, n, (v >> 7) as u8);
+                let e2 = Ev::cc(c, n + 32, (v & 127) as u8);
+                let no_path = || vec!["(long history)".to_string()];
+                mon.apply(&e1, rep, &no_path);
+                mon.apply(&e2, rep, &no_path);
+                for _ in 0..66_000u32 {
+                    mon.apply(&filler, rep, &no_path);
+                }
+                let o1 = mon.apply(&e1, rep, &no_path);
+                let o2 = mon.apply(&e2, rep, &no_path);
+                cases += 1;
+                let want = Some(C14M { ch: c, msb_cn: n, value: v });
+                if o1.is_some() || o2 != want {
+                    rep.violation(
+                        "C07:scanner-does-not-invert-encoder:long-prior-history",
+                        format!("after {} , {} and 66000 x {}, feeding the encoding of ({},{},{}) returned {:?} then {:?}; expected None then {:?}", e1.render(), e2.render(), filler.render(), c, n, v, o1, o2, want),
+                        json!({"kind":"history-compressed","scanner":"cc14","prefix":[e1.render(), e2.render()],"repeat":{"event":filler.render(),"times":66000},"then":[e1.render(), e2.render()]}),
+                    );
+                }
+            }
+        }
+        rep.evaluations += cases * 66_004;
+        rep.count("long_prior_history_cases", cases);
+    }
     // constructor panic condition
     for n in 0u8..128 {
         for (c, v) in [(0u8, 0u16), (15, 16383), (7, 8192)] {
@@ -298,7 +336,7 @@ pub fn run_c08(cfg: &Cfg, rep: &mut Report) {
     }
     for (channel, vals) in runs {
         let alpha = c08_alphabet_v(full, channel, &vals);
-        let (st, _) = explore(cfg, Cc14Mon::new(), &alpha, 1 << 22, rep, false);
+        let (st, _) = explore(cfg, Cc14Mon::new(), &alpha, if full { 200_000 } else { 20_000 }, rep, false);
         rep.states += st.states;
         rep.transitions += st.transitions;
         rep.evaluations += st.transitions;
